@@ -152,8 +152,10 @@ def golomb_consistency_algorithm(
         # the following will mark at most sum(n-3) numbers as used
         # hence there will be at least n-2 unused numbers greater than 0
         for var_idx in range(index(mark_nb, ni_var_idx - 2, ni_var_idx - 1) + 1):
-            dist = shr_domains_stack[top, dom_indices_arr[var_idx], MIN]  # no offset
-            if dist < len(used_distance):
+            dom_idx = dom_indices_arr[var_idx]
+            dist = shr_domains_stack[top, dom_idx, MIN]  # no offset
+            # only a distance that is already instantiated is used for sure
+            if dist == shr_domains_stack[top, dom_idx, MAX] and dist < len(used_distance):
                 used_distance[dist] = True
         # let's compute the sum of non-used numbers
         distance = 1
